@@ -237,6 +237,68 @@ theorem wf_loaded {s1 : St} (code : List Instr) (hw : WF s1) : WF (loaded s1 cod
 
 /-! ## Running the loaded text -/
 
+/-- the loaded state: `mainfunc`, from the old end on, is the one activation, above a base without
+return address -/
+theorem loaded_running {s1 : St} (code : List Instr) (as : List AState) (N : Nat)
+    (hw : WF s1) (hd : s1.data = []) (ha : s1.addr = [])
+    (hu : (fnOf s1 mainFn).user = false) (hold : AllOK (szS s1) (fnOf s1 mainFn).code)
+    (hoids : idsIn (fnOf s1 mainFn).code 0 N) (hids : idsIn code N s1.loops.length) (hN : N ≤ s1.loops.length)
+    (hpc : s1.pc = ((fnOf s1 mainFn).code.length : Int)) (hcode : AllOK (szS s1) code)
+    (hfrag : FragOK mainEnv (B s1.loops code) as) (h0 : as[0]? = some restState) :
+    ∃ b a0, b.main = true ∧ a0.A = 0 ∧ Holds b a0 [] (loaded s1 code) := by
+  obtain ⟨s2, hs2⟩ : ∃ s2, s2 = loaded s1 code := ⟨_, rfl⟩
+  have hw2 : WF s2 := by rw [hs2]; exact wf_loaded code hw
+  have hmain : fnOf s2 mainFn = { (fnOf s1 mainFn) with code := (fnOf s1 mainFn).code ++ code } := by
+    rw [hs2]; exact loaded_main s1 code hw.two
+  have hsz : szS s2 = szS s1 := by rw [hs2]; simp only [szS, loaded_len]; rfl
+  have hloops : s2.loops = s1.loops := by rw [hs2]; rfl
+  obtain ⟨old, hold'⟩ : ∃ old, old = (fnOf s1 mainFn).code := ⟨_, rfl⟩
+  have hcodeM : (fnOf s2 mainFn).code = old ++ code := by rw [hmain, hold']
+  have hidsM : idsIn (old ++ code) 0 s1.loops.length := by
+    rw [hold']; exact idsIn_app hoids hids (Nat.zero_le _) hN
+  have hBM : (fnB s2 mainFn).code = B s1.loops old ++ B s1.loops code := by
+    show B s2.loops (fnOf s2 mainFn).code = _
+    rw [hcodeM, hloops]; simp only [B, List.map_append]
+  have huniq : LoopsUnique (fnB s2 mainFn).code := by
+    apply loopsUnique_of_nodup
+    show (lids (B s2.loops (fnOf s2 mainFn).code)).Nodup
+    rw [lids_B, hcodeM]; exact nodup_of_idsIn hidsM
+  have hstep : StepVerified (fnB s2 mainFn) (mainAnn (B s1.loops old).length as) :=
+    main_stepVerified _ _ _ as hBM hfrag huniq
+  rw [B_length] at hstep
+  have hlenas : as.length = code.length + 1 := by have := hfrag.1; rw [B_length] at this; exact this
+  let a0 : Act := ⟨mainFn, mainAnn old.length as, [], s1.linear.length, 0⟩
+  let b : Base := ⟨[], s1.linear, [], mainFn, 0, true⟩
+  have hpc2 : s2.pc = (old.length : Int) := by rw [hs2, hold']; exact hpc
+  have hd2 : s2.data = [] := by rw [hs2]; exact hd
+  have ha2 : s2.addr = [] := by rw [hs2]; exact ha
+  have hl2 : s2.linear = s1.linear := by rw [hs2]; rfl
+  have hc2 : s2.curfunc = mainFn := by rw [hs2]; rfl
+  have hact : ActOK s2 a0 := by
+    refine ⟨hstep, fun h => absurd rfl h, ?_, fun h => absurd rfl h, by rw [hmain]; exact hu, ?_, ?_⟩
+    · show (mainAnn old.length as).length = (fnB s2 mainFn).code.length + 1
+      rw [hBM]; simp only [mainAnn, List.length_append, List.length_replicate, List.length_map, B_length, hlenas]; omega
+    · have := hw2.two; show 0 < s2.fns.length; omega
+    · show AllOK (szS s2) (fnOf s2 mainFn).code
+      rw [hcodeM, hsz, hold']; exact AllOK.append hold hcode
+  have hrun : Running b s2 a0 [] := by
+    refine ⟨hc2, by rw [hpc2]; exact Int.natCast_nonneg _, ?_, hact, ⟨by rfl, by rfl, ?_⟩, by rw [hl2]; exact List.suffix_refl _⟩
+    · apply inv_mk (s' := restState) (own' := [])
+      · refine ⟨restState, ?_, le_refl _⟩
+        show annAt (mainAnn old.length as) s2.pc.toNat = _
+        rw [hpc2]
+        have := annAt_mainAnn_ge old.length as 0
+        simp only [Nat.add_zero] at this
+        rw [Int.toNat_natCast, this, h0]
+      · show s2.data.map cellOf = _; rw [hd2]; rfl
+      · exact Conc.base 0
+      · show s2.linear.length = _; rw [hl2]; rfl
+      · show s2.addr.length = _; rw [ha2]; rfl
+    · show (if true = true then s2.addr = [] else _)
+      rw [if_pos rfl]; exact ha2
+  subst hs2
+  exact ⟨b, a0, rfl, rfl, hw2, [], a0, [], hrun, rfl⟩
+
 /-- **`Run` on a loaded text that returns a value leaves the interpreter at rest**, with the
 table invariant and the facts about `mainfunc` kept. `s1` is the state after `LoadExpressions`
 (before the code is appended): nothing on the data and address stacks, `mainfunc`'s loop ids
